@@ -116,7 +116,7 @@ func unreachableCall(e *Env, rule string, fn *ssa.Function, cfg gcfg, calleePat,
 	ctx := gate.New(e.P, e.P.VTA(), cfg.assume...)
 	// Never-gate + stop blocks: "established" means the stop blocks (and exits) are unreachable;
 	// exits are irrelevant here, so ask for an outcome no return has.
-	ok, w := ctx.EstablishedFrom(fn, fn.Blocks[0], gate.Outcome{Kind: gate.NonNil, Idx: 1 << 20}, gate.Never, stop)
+	ok, w := ctx.EstablishedFrom(fn, fn.Blocks[0], gate.Outcome{Kind: gate.NoExit}, gate.Never, stop)
 	_ = ok
 	reached := false
 	for _, line := range w {
